@@ -86,3 +86,47 @@ Definition examine (batch : nat) (gh : N) (c : pchange) (K1 K2 : list block) : v
     | _, _ => {| vd_valid := false; vd_fin1 := 0; vd_fin2 := 0; vd_safe := true; vd_hyp := false; vd_static := true |}
     end
   end.
+
+(* ------------------------------------------------------------------ blocks WITH IDENTITY (C01 round 4)
+   A tagged block is (id, block): the id is opaque to every vote function (liskbft never sees it); block identity is the
+   tagged history.  Two blocks with equal BFT tuples and different ids are DIFFERENT blocks; a generator that signs both is a
+   double forger: equal tuples at equal height are contradicting, so [thonest_b] counts it as Byzantine. *)
+Definition tblock_eqb (a b : N * block) : bool := (fst a =? fst b) && block_eqb (snd a) (snd b).
+Fixpoint tis_prefix (a b : list (N * block)) : bool :=
+  match a, b with
+  | [], _ => true
+  | x :: a', y :: b' => tblock_eqb x y && tis_prefix a' b'
+  | _ :: _, [] => false
+  end.
+Fixpoint tchain_eqb (a b : list (N * block)) : bool :=
+  match a, b with [], [] => true | x :: a', y :: b' => tblock_eqb x y && tchain_eqb a' b' | _, _ => false end.
+Definition tcomparable (a b : list (N * block)) : bool := tis_prefix a b || tis_prefix b a.
+Fixpoint tprefixes (K : list (N * block)) : list (list (N * block)) :=
+  match K with [] => [] | x :: tl => [x] :: map (cons x) (tprefixes tl) end.
+Definition tlast_hdr (P : list (N * block)) : option hdr := match rev P with x :: _ => Some (fst (snd x)) | [] => None end.
+Definition tblocks_of (g : addr) (Ks : list (list (N * block))) : list (hdr * list (N * block)) :=
+  flat_map (fun K => flat_map (fun P => match tlast_hdr P with
+                                         | Some h => if h_gen h =? g then [(h, P)] else []
+                                         | None => [] end) (tprefixes K)) Ks.
+Definition thonest_b (g : addr) (Ks : list (list (N * block))) : bool :=
+  let bs := tblocks_of g Ks in
+  forallb (fun x => forallb (fun y => tchain_eqb (snd x) (snd y) || negb (contradicting (bh_of_hdr (fst x)) (bh_of_hdr (fst y)))) bs) bs.
+Definition tbyz_weight (vals : list (addr * N)) (Ks : list (list (N * block))) : N :=
+  fold_right (fun v acc => if thonest_b (fst v) Ks then acc else snd v + acc) 0 vals.
+Definition tfinalized_prefix (gh : N) (K : list (N * block)) (f : N) : list (N * block) := firstn (N.to_nat (f - gh)) K.
+
+Definition texamine (batch : nat) (gh : N) (c : pchange) (T1 T2 : list (N * block)) : verdict :=
+  let K1 := map snd T1 in let K2 := map snd T2 in
+  match init_store batch gh c with
+  | Error _ => {| vd_valid := false; vd_fin1 := 0; vd_fin2 := 0; vd_safe := true; vd_hyp := false; vd_static := true |}
+  | Ok s0 =>
+    match run_valid batch s0 gh K1, run_valid batch s0 gh K2 with
+    | Some s1, Some s2 =>
+      let f1 := finalized s1 in let f2 := finalized s2 in
+      {| vd_valid := true; vd_fin1 := f1; vd_fin2 := f2;
+         vd_safe := tcomparable (tfinalized_prefix gh T1 f1) (tfinalized_prefix gh T2 f2);
+         vd_hyp := 3 * tbyz_weight (c_vals c) [T1; T2] <? total_weight (c_vals c);
+         vd_static := static_chain K1 && static_chain K2 |}
+    | _, _ => {| vd_valid := false; vd_fin1 := 0; vd_fin2 := 0; vd_safe := true; vd_hyp := false; vd_static := true |}
+    end
+  end.
